@@ -51,10 +51,20 @@ def run(job, tier, deadline_s):
         viol("missing-symbol-version/%s@%s" % (s[0], s[1]) if not other else "default-version-changed/%s@%s" % (s[0], s[1]),
              symbol=s[0], version=s[1], default_in_release=s[2], fresh_has=[list(x) for x in new if x[0] == s[0]])
     st["evaluations"] = len(rel)
-    # what the tree's own map promises must be there too
-    promised = set()
-    for line in open(os.path.join(var["gen"], "libcrypt.map")):
-        pass
+    # the export set of the pinned upstream configuration (recorded in c20/upstream_exports.txt; the installed Debian build is a subset of it)
+    pinned = set()
+    for line in open(os.path.join(src, "upstream_exports.txt")):
+        f = line.split()
+        if len(f) == 3 and not line.startswith("#"):
+            pinned.add((f[0], f[1], f[2] == "default"))
+    st["pinned_symbol_versions"] = len(pinned)
+    if len(pinned) < 25:
+        agg["errors"].append("c20/upstream_exports.txt is incomplete")
+    for s in sorted(pinned - new - rel):
+        other = [x for x in new if x[0] == s[0] and x[1] == s[1]]
+        viol("missing-symbol-version/%s@%s" % (s[0], s[1]) if not other else "default-version-changed/%s@%s" % (s[0], s[1]),
+             symbol=s[0], version=s[1], default_in_release=s[2], fresh_has=[list(x) for x in new if x[0] == s[0]], reference="c20/upstream_exports.txt")
+    st["evaluations"] += len(pinned - rel)
     # (2) layout / constants probe against both headers
     outs = {}
     for tag, inc in (("tree", var["gen"]), ("released", RELEASED_INC)):
